@@ -5,7 +5,8 @@ import EupsModel.Lemmas.DepsPinnedWalk
 /-! C13 — dependency listings are complete and ordered; `uses` is their inverse.
 Property theorems only.  Models: `Model/Topo.lean`, `Model/Deps.lean`; lemmas: `Lemmas/Topo.lean`,
 `Lemmas/TopoSpec.lean`, `Lemmas/TopoTotal.lean`, `Lemmas/Deps.lean`, `Lemmas/DepsFuel.lean`, `Lemmas/DepsTopo.lean`,
-`Lemmas/Uses.lean`, `Lemmas/DepsTotal.lean`.
+`Lemmas/Uses.lean`, `Lemmas/DepsGuard.lean`, `Lemmas/DepsTotal.lean`, `Lemmas/DepsPinned.lean`, `Lemmas/DepsSound.lean`,
+`Lemmas/DepsPinnedWalk.lean`.
 
 Vocabulary (defined in `Lemmas/Deps.lean`, `Lemmas/DepsTopo.lean`):
 * `Edge db [] u v`   — the table of `u` has a setup line that denotes `v` (resolved, or the placeholder of an
@@ -15,8 +16,13 @@ Vocabulary (defined in `Lemmas/Deps.lean`, `Lemmas/DepsTopo.lean`):
 * `Listed db [] top v` — some opened table has a line denoting `v`: "reachable through its table files (as resolved)";
 * `DepPath db top a b` — `b` is reachable from `a` along lines of opened tables;
 * `NoUnsetup db`     — no table has an `unsetupRequired` line and every declared table file exists (the property does
-  not say what an unsetup line or an unreadable table means for a listing; known finding D32 lives there);
-* `SingleVersion db top` — the closure of `top` holds no product in two versions. -/
+  not say what an unsetup line or an unreadable table means for a listing).  Hypothesis of the reachability and order
+  theorems only: the totality theorems hold for every database (D32 repaired), and `C13_unsetup_only_removes` says what
+  an unsetup line may do;
+* `SingleVersion db top` — the closure of `top` holds no product in two versions;
+* `pins db top`, `DepPathR db (pins db top) top`, `PinnedSingle` (`Lemmas/DepsPinned.lean`) — the *pinned* graph: the
+  tables opened in the second pass, every name resolved to the version of its last entry in the plain listing; that is
+  the graph the code sorts, and the one on which the statements about several versions (D31) are exact. -/
 namespace EupsModel.C13
 open EupsModel EupsModel.Topo EupsModel.Deps
 
